@@ -416,8 +416,12 @@ func TestC02_Splices(t *testing.T) {
 // original signer's key unless the covered bytes are unchanged.
 func FuzzC02_Tamper(f *testing.F) {
 	var origs []signedTok
-	for i, alg := range []int64{icose.EdDSA, icose.ES256} {
-		st, err := signModel(baseValid([]Prof{P1, P2}[i], 1), keyFor(alg, 0))
+	// Only the deterministic algorithm: the fuzz workers are separate
+	// processes that each recompute the originals, and with a randomised
+	// scheme (ECDSA, PSS) another process's VALID signature over the same
+	// message would look like "signature differs and verifies".
+	for i, alg := range []int64{icose.EdDSA, icose.EdDSA} {
+		st, err := signModel(baseValid([]Prof{P1, P2}[i], 1), keyFor(alg, i))
 		if err != nil {
 			f.Fatalf("VERIF-INFRA: %v", err)
 		}
